@@ -1162,8 +1162,19 @@ def gen_run(seed, params):
     rng = stream(seed, 'workload')
     small = 'plain' in params.get('config_kinds', ('plain', 'param')) and (
         rng.random() < params.get('p_small', 0.15))
+    # long histories hugging the closing seam of a narrow glued mesh: closure
+    # chains that wrap around the curve (own stream for the decision)
+    seam = (not small) and 'plain' in params.get(
+        'config_kinds', ('plain', 'param')) and stream(
+            seed, 'scenario-seam').random() < params.get('p_seam', 0.05)
     for attempt in range(20):
         config = gen_config(rng, params)
+        if seam:
+            n_t, n_x = rng.choice([(1, 1), (1, 2), (1, 2), (2, 2), (1, 3),
+                                   (2, 3)])
+            config = {'kind': 'plain', 'glued': True,
+                      'space': [float(k) for k in range(n_x + 1)],
+                      'time': [float(k) for k in range(n_t + 1)]}
         if small:
             # the smallest initial meshes, short uniform-random bisection
             # sequences: where structural bugs surface first
@@ -1207,6 +1218,14 @@ def gen_run(seed, params):
     tail = params.get('tail')  # e.g. end every run with a Doerfler/grading op
     if big:
         n_ops = rng.randint(8, 16)
+    if seam:
+        big = False
+        n_ops = rng.randint(40, max(41, min(140, params.get('max_ops', 120))))
+        w = {k: (v if k == 'bisect' else 0.0) for k, v in w.items()}
+        kinds = [k for k in w if w[k] > 0]
+        focus = False
+        tail = None
+        x_end = case.n_x * S
     for step in range(n_ops):
         last = step == n_ops - 1
         kind = rng.choices(kinds, [w[k] for k in kinds])[0]
@@ -1220,6 +1239,9 @@ def gen_run(seed, params):
         if kind == 'bisect':
             if focus and fpt is not None and rng.random() < 0.7:
                 lf = mm.leaf_at(*fpt)
+            elif seam and rng.random() < 0.75:
+                lf = rng.choice([b for b in leaves
+                                 if b[2] == 0 or b[3] == x_end])
             else:
                 lf = rng.choice(leaves)
             t0, t1, x0, x1 = lf
